@@ -101,7 +101,7 @@ Qed.
 Lemma it_snext_ext : forall i ctx its p r x its' r',
   it_snext toks spn run i ctx its p r = Some (x, its', r') -> p <= length toks -> snext_pos x p.
 Proof.
-  induction i as [a lo hi|a sep lo hi lead trail|j IHj|f j IHj|f j IHj|a|a lo hi];
+  induction i as [a lo hi|a sep lo hi lead trail|j IHj|f j IHj|f j IHj|a|a lo hi ck];
     intros ctx its p r x its' r' H Hp; cbn [it_snext] in H.
   - destruct its; try discriminate.
     destruct (rep_snext run a lo hi ctx n p r) as [[[x0 c'] r0]|] eqn:E; [|discriminate].
